@@ -358,6 +358,197 @@ theorem never_fails_monitor {env : Env} {s : State} {to : Option Addr} {gu gp : 
         obtain ⟨s', hs'⟩ := never_fails_for_valid_share P to logs
         rw [hs'] at hp; cases hp
 
+/-! ## the other monitors of C10 on model transitions -/
+
+theorem fee_leaves_collector_monitor {env : Env} {s s' : State} {to : Option Addr} {gu gp : Nat} {logs : List Log}
+    (h : postTx env s to gu gp logs = .ok s') (hshare : s.params.share ≤ S18) :
+    c10_fee_leaves_collector { env := env, pre := s, op := .postTx to gu gp logs, ok := true, post := s' } = true := by
+  simp only [c10_fee_leaves_collector]
+  split
+  · rfl
+  · rename_i ts hft
+    obtain ⟨hts, hen, hgu, W⟩ := feeTx_some hft
+    obtain ⟨f1, f2⟩ := fee_leaves_collector h hen hts hgu W hshare
+    simp only [Bool.and_eq_true, List.all_eq_true, beq_iff_eq, Bool.or_eq_true, bne_iff_ne, ne_eq]
+    refine ⟨?_, f1⟩
+    intro k _
+    by_cases hk : k.1 = env.feeCollector
+    · right
+      by_cases hd : k.2 = env.denom
+      · rw [if_pos hd, beq_iff_eq, hd]; exact f1
+      · rw [if_neg hd, beq_iff_eq]; exact f2 k.2 hd
+    · left; exact hk
+
+theorem module_residue_zero_monitor {env : Env} {s s' : State} {to : Option Addr} {gu gp : Nat} {logs : List Log}
+    (h : postTx env s to gu gp logs = .ok s') (hshare : s.params.share ≤ S18) :
+    c10_module_residue_zero { env := env, pre := s, op := .postTx to gu gp logs, ok := true, post := s' } = true := by
+  simp only [c10_module_residue_zero]
+  split
+  · rfl
+  · rename_i ts hts
+    cases hd : distinct env ts with
+    | false => rfl
+    | true =>
+      have W := wiring_of_distinct hd
+      simp only [Bool.not_true, Bool.false_or, List.all_eq_true, Bool.or_eq_true, Bool.not_eq_true', beq_iff_eq]
+      intro k _
+      by_cases hk : k.1 = env.modAddr
+      · right; rw [hk]; exact (module_residue_zero h hts W hshare k.2).1
+      · by_cases hk2 : k.1 = env.evmAddr
+        · right; rw [hk2]; exact (module_residue_zero h hts W hshare k.2).2
+        · left
+          simp [hk, hk2]
+
+
+theorem afterEvents_eq {env : Env} {s : State} {ts : Addr} (logs : List Log) (hen : s.params.enabled = true)
+    (hts : s.turnstile = some ts) : afterEvents env s logs = processEvents env ts s logs := by
+  simp [afterEvents, hen, hts]
+
+theorem registered_split_monitor {env : Env} {s s' : State} {to : Option Addr} {gu gp : Nat} {logs : List Log}
+    (hI : RegInv s) (h : postTx env s to gu gp logs = .ok s') (hshare : s.params.share ≤ S18) :
+    c10_registered_split { env := env, pre := s, op := .postTx to gu gp logs, ok := true, post := s' } = true := by
+  simp only [c10_registered_split]
+  split
+  · rename_i ts n hft htn
+    obtain ⟨hts, hen, hgu, W⟩ := feeTx_some hft
+    cases to with
+    | none => simp [targetNft] at htn
+    | some c =>
+      have htn : s'.nftOf c = some n := htn
+      obtain ⟨hidx, _⟩ := fee_distribution_preserves_registry hI h
+      rw [afterEvents_eq logs hen hts] at hidx
+      have hn1 : (processEvents env ts s logs).nftOf c = some n := by
+        simpa only [State.nftOf, hidx] using htn
+      have hI1 := processEvents_regInv env ts s logs hI
+      obtain ⟨r, hr, _⟩ := hI1.sound c n hn1
+      obtain ⟨hrid, _⟩ := hI1.wf n r hr
+      obtain ⟨g1, g2, g3, g4, g5⟩ := registered_split h hen hts hgu W hshare hn1 hr
+      obtain ⟨c1, c2⟩ := processEvents_counters logs hI n hr
+      rw [hrid] at g3
+      rw [g3]
+      simp only [Bool.and_eq_true, beq_iff_eq, Bool.or_eq_true, Bool.not_eq_true', decide_eq_false_iff_not, decide_eq_true_eq]
+      refine ⟨⟨⟨⟨⟨?_, ?_⟩, g1⟩, g2⟩, g4⟩, g5⟩
+      · rw [c2]
+      · by_cases hlt : ((s.getCSR n).map (·.txs)).getD 0 + 1 < U64
+        · right
+          rw [c1]
+          exact Nat.mod_eq_of_lt hlt
+        · left; exact hlt
+  · rfl
+
+theorem burn_all_monitor {env : Env} {s s' : State} {to : Option Addr} {gu gp : Nat} {logs : List Log}
+    (hI : RegInv s) (h : postTx env s to gu gp logs = .ok s') (hshare : s.params.share ≤ S18) :
+    c10_burn_all { env := env, pre := s, op := .postTx to gu gp logs, ok := true, post := s' } = true := by
+  simp only [c10_burn_all]
+  split
+  · rename_i ts hft htn
+    obtain ⟨hts, hen, hgu, W⟩ := feeTx_some hft
+    obtain ⟨hidx, _⟩ := fee_distribution_preserves_registry hI h
+    rw [show afterEvents env s logs = processEvents env ts s logs by simp [afterEvents, hen, hts]] at hidx
+    have facts : s'.bank.supply env.denom + gu * gp = s.bank.supply env.denom ∧
+        s'.bank.get ts env.denom = s.bank.get ts env.denom ∧ s'.tsBal = s.tsBal ∧
+        s'.csrs = (processEvents env ts s logs).csrs := by
+      cases to with
+      | none => exact creation_burn h hen hts hgu W hshare
+      | some c =>
+        have htn : s'.nftOf c = none := htn
+        have hn1 : (processEvents env ts s logs).nftOf c = none := by simpa only [State.nftOf, hidx] using htn
+        exact unregistered_burn h hen hts hgu W hshare hn1
+    obtain ⟨g1, g2, g3, g4⟩ := facts
+    simp only [Bool.and_eq_true, beq_iff_eq, List.all_eq_true]
+    refine ⟨⟨⟨g1, g2⟩, by rw [g3]; exact AMap.eqv_refl _⟩, ?_⟩
+    intro p _
+    cases hr' : s'.getCSR p.1 with
+    | none => rfl
+    | some r' =>
+      have hr1 : (processEvents env ts s logs).getCSR p.1 = some r' := by simpa only [State.getCSR, g4] using hr'
+      obtain ⟨c1, c2⟩ := processEvents_counters logs hI p.1 hr1
+      simp only [Bool.and_eq_true, beq_iff_eq]
+      exact ⟨c1, c2⟩
+  · rfl
+
+/-- rejected ⇒ unchanged, disabled ⇒ accepted and unchanged: true of every transition of the model -/
+theorem rejected_or_disabled_monitor (env : Env) (s : State) (op : Op) :
+    c10_rejected_or_disabled_unchanged
+      { env := env, pre := s, op := op,
+        ok := (match step env s op with | .ok _ => true | .error _ => false),
+        post := exec env s op } = true := by
+  simp only [c10_rejected_or_disabled_unchanged, Bool.and_eq_true, Bool.or_eq_true]
+  constructor
+  · cases hs : step env s op with
+    | ok s' => exact Or.inl rfl
+    | error e => right; rw [rejected_unchanged env s op e hs]; exact sameState_refl s
+  · cases op with
+    | setParams => trivial
+    | send => trivial
+    | postTx to gu gp logs =>
+      cases hen : s.params.enabled with
+      | true => simp
+      | false =>
+        have : postTx env s to gu gp logs = .ok s := by unfold postTx; simp [hen]
+        simp [step, exec, this, sameState_refl]
+
+theorem frame_monitor {env : Env} {s s' : State} {to : Option Addr} {gu gp : Nat} {logs : List Log}
+    (hI : RegInv s) (h : postTx env s to gu gp logs = .ok s') (hshare : s.params.share ≤ S18)
+    (hW : ∀ ts, s.turnstile = some ts → Wiring env ts) :
+    c10_frame { env := env, pre := s, op := .postTx to gu gp logs, ok := true, post := s' } = true := by
+  simp only [c10_frame]
+  -- the three statements the monitor is made of, for a stored Turnstile
+  have key : ∀ ts, s.turnstile = some ts →
+      (∀ a d, (a ≠ env.feeCollector ∧ a ≠ ts) ∨ d ≠ env.denom → s'.bank.get a d = s.bank.get a d) ∧
+      (∀ d, d ≠ env.denom → s'.bank.supply d = s.bank.supply d) ∧
+      (∀ n, some n = targetNft { env := env, pre := s, op := .postTx to gu gp logs, ok := true, post := s' } to ∨
+            s'.tsBal.get n = s.tsBal.get n) := by
+    intro ts hts
+    cases postTx_ok h with
+    | disabled _ hs => subst hs; exact ⟨fun _ _ _ => rfl, fun _ _ => rfl, fun _ => Or.inr rfl⟩
+    | gasZero ts' _ _ _ hs =>
+      subst hs
+      have hsr := processEvents_sameRest env ts' s logs
+      rw [hsr.bank, hsr.tsBal]
+      exact ⟨fun _ _ _ => rfl, fun _ _ => rfl, fun _ => Or.inr rfl⟩
+    | fee ts' b1 hen hts' hgu =>
+      cases hook_effects h hen hts hgu (hW ts hts) hshare with
+      | burned _ bank tsBal => exact ⟨bank.frame, bank.supplyFrame, fun n => Or.inr (by rw [tsBal])⟩
+      | split c n r hto hn hr bank credited others =>
+        refine ⟨bank.frame, bank.supplyFrame, ?_⟩
+        intro m
+        by_cases hm : m = n
+        · left
+          subst hm hto
+          obtain ⟨hidx, _⟩ := fee_distribution_preserves_registry hI h
+          rw [show afterEvents env s logs = processEvents env ts s logs by simp [afterEvents, hen, hts]] at hidx
+          show some m = s'.nftOf c
+          simp only [State.nftOf, hidx]
+          exact hn.symm
+        · exact Or.inr (others m hm)
+  split
+  · rename_i hts
+    -- no Turnstile stored: only a disabled module lets the hook return
+    cases postTx_ok h with
+    | disabled _ hs => rw [hs]; exact sameBank_refl s
+    | gasZero ts _ hts' => rw [hts] at hts'; cases hts'
+    | fee ts _ _ hts' => rw [hts] at hts'; cases hts'
+  · rename_i ts hts
+    obtain ⟨k1, k2, k3⟩ := key ts hts
+    simp only [Bool.and_eq_true, List.all_eq_true, Bool.or_eq_true, beq_iff_eq]
+    refine ⟨⟨?_, ?_⟩, ?_⟩
+    · intro k _
+      by_cases hd : k.2 = env.denom
+      · by_cases ha : k.1 = env.feeCollector ∨ k.1 = ts
+        · left; exact ⟨ha, hd⟩
+        · right
+          have : k.1 ≠ env.feeCollector ∧ k.1 ≠ ts := ⟨fun e => ha (Or.inl e), fun e => ha (Or.inr e)⟩
+          exact k1 k.1 k.2 (Or.inl this)
+      · right; exact k1 k.1 k.2 (Or.inr hd)
+    · intro d _
+      by_cases hd : d = env.denom
+      · exact Or.inl hd
+      · exact Or.inr (k2 d hd)
+    · intro n _
+      exact k3 n
+
+
 /-! ## histories: recorded revenue is the Turnstile balance -/
 
 theorem revenueMatches_step {env : Env} {s s' : State} {op : Op} (hI : RegInv s) (hshare : s.params.share ≤ S18)
